@@ -952,7 +952,8 @@ def run(prog, tier, extra=None):
         can_fail = ret["k"] == "adt" and ret["d"] in ("std::result::Result", "std::option::Option")
         obs.sort(key=lambda o: (o["bb"], o["kind"]))
         if not can_fail:
-            res.add(Finding(RS, "C10.signature|%s|%d" % (path, len(obs)),
+            # keyed by decoder only: it cannot reject at all, so one more or one fewer unchecked operation in it is the same finding
+            res.add(Finding(RS, "C10.signature|%s" % path,
                             "%s returns %s and cannot reject input, but %d operation(s) on the input can panic (first: %s %s)"
                             % (name, ret["s"].split("::")[-1], len(obs), obs[0]["kind"], obs[0]["desc"][:70]), obs[0]["loc"],
                             {"undischarged": [{"loc": o["loc"], "kind": o["kind"], "op": o["desc"]} for o in obs[:20]]}))
